@@ -90,6 +90,70 @@ def _dict_literal(f):
     raise AnalysisError("C15.R1: environ literal with REQUEST_METHOD not found in %s" % f.qualname)
 
 
+def header_mapping(ctx, rid, names):
+    """evaluated: which environ key receives the value of a request header, and which locals of create() it sets (however the
+    mapping is written: if-chain, lookup table, helper, key normalised first or last). Only the exact wire names CONTENT-TYPE /
+    CONTENT-LENGTH become CGI variables, only HOST and SCRIPT_NAME are also remembered in a local, everything else lands in
+    'HTTP_' + name.replace('-', '_') -- the one non-injective step the underscore policy of parse_headers accounts for."""
+    repo = ctx.repo
+    f = ctx.fn(repo.func(WSGI + ".create"))
+    g = f.cfg
+    loops = [n for n in g.nodes if n.kind == "for" and norm(n.ast.iter).endswith(".headers")]
+    ctx.need(loops and isinstance(loops[0].ast.target, ast.Tuple), rid + ": header loop of wsgi.create not found")
+    loop = loops[0]
+    HN, HV = [x.id for x in loop.ast.target.elts]
+    ctx.check(rid, norm(loop.ast.iter) == "%s.headers" % f.params[0], key(f, "iterates-request-headers"), site(f, loop), "create() does not iterate req.headers in order", "for name, value in req.headers")
+    ENV = None
+    for r in g.stmts(ast.Return):
+        if isinstance(r.ast.value, ast.Tuple) and len(r.ast.value.elts) == 2 and isinstance(r.ast.value.elts[1], ast.Name):
+            ENV = r.ast.value.elts[1].id
+    ctx.need(ENV, rid + ": create() does not return (resp, environ)")
+    stores = [s for s in g.stmts(ast.Assign) if any(isinstance(t, ast.Subscript) and tail(t.value) == ENV for t in s.ast.targets) and any(a is loop.ast for a in f.module.ancestors(s.ast))]
+    ctx.need(stores, rid + ": no environ store in the header loop")
+    lstores = [s for s in g.stmts(ast.Assign) if len(s.ast.targets) == 1 and isinstance(s.ast.targets[0], ast.Name) and isinstance(s.ast.value, ast.Name) and s.ast.value.id == HV
+               and any(a is loop.ast for a in f.module.ancestors(s.ast))]
+    probes = {}
+    for s in stores:
+        t = s.ast.targets[0]
+        probes[s.id] = ("store", lambda ex_, env, t=t, v=s.ast.value: (ex_.ev(t.slice, env), ex_.ev(v, env)))
+    for s in lstores:
+        probes[s.id] = ("local", lambda ex_, env, nm=s.ast.targets[0].id: (nm, "v"))
+    rows = []
+    for hn in names:
+        if hn in ("CONTENT-TYPE", "CONTENT-LENGTH"):
+            wkey = hn.replace("-", "_")
+        else:
+            wkey = "HTTP_" + hn.replace("-", "_")
+        # first occurrence, a repeated field, a repeated field whose earlier occurrence was empty
+        for prior in (None, "u", ""):
+            if prior is not None and not wkey.startswith("HTTP_"):
+                continue
+            ex = Explorer(f, tracked=[ENV])
+            outs = ex.run(loop, {HN: hn, HV: "v", ENV: ({} if prior is None else {wkey: prior})}, stop=lambda n: n is loop, start_label="true", probes=probes)
+            got, locs = set(), set()
+            for o in outs:
+                if o.kind == "stop":
+                    got.add(tuple(sorted((str(e[1][0]) if not isinstance(e[1], str) else "?", e[1][1] if not isinstance(e[1], str) and isinstance(e[1][1], str) else "?")
+                                         for e in o.events if isinstance(e, tuple) and e[0] == "store")))
+                    locs.add(tuple(sorted(e[1][0] for e in o.events if isinstance(e, tuple) and e[0] == "local" and not isinstance(e[1], str))))
+            wval = "v" if prior is None else prior + ",v"
+            okrow = bool(got) and all(len(g_) == 1 and g_[0] == (wkey, wval) for g_ in got)
+            rows.append({"header": hn, "earlier value": prior, "stores": sorted(map(str, got)), "required": (wkey, wval), "locals": sorted(map(str, locs))})
+            if prior is None:
+                ctx.check(rid, okrow, key(f, "header-map|" + hn), site(f, text="header " + hn), "header %s leads to environ stores %s, required exactly one store %s" % (hn, sorted(map(str, got)), (wkey, wval)),
+                          "%s <- value" % wkey)
+                wloc = {"HOST": 1, "SCRIPT_NAME": 1}.get(hn, 0)
+                ctx.check(rid, all(len(l_) == wloc for l_ in locs), key(f, "header-locals|" + hn), site(f, text="header " + hn),
+                          "header %s is also remembered in the local(s) %s of create(): only the exact names HOST and SCRIPT_NAME (which parse_headers lets through for trusted peers only) may steer "
+                          "SERVER_NAME / SCRIPT_NAME" % (hn, sorted(set(x for l_ in locs for x in l_))), "%d local(s)" % wloc)
+            else:
+                ctx.check(rid, okrow, key(f, "repeat-join|%s|%r" % (hn, prior)), site(f, text="header %s repeated" % hn),
+                          "a second %s field with value 'v' after an earlier one with value %r leads to environ stores %s: repeated fields must be joined as `earlier,later` (here %r)" % (
+                              hn, prior, sorted(map(str, got)), (wkey, wval)), "%s <- earlier,later" % wkey)
+    ctx.table(rid + " header mapping", rows)
+    return f, g, loop, HN, HV, ENV
+
+
 def r1(ctx):
     repo = ctx.repo
     f = ctx.fn(repo.func(WSGI + ".default_environ"))
@@ -125,53 +189,7 @@ def r1(ctx):
     from .c01 import request_line_table
     request_line_table(ctx, "C15.R1", fields=True, enumerate_bytes=False)
     # ---- create(): header loop
-    f = ctx.fn(repo.func(WSGI + ".create"))
-    g = f.cfg
-    loops = [n for n in g.nodes if n.kind == "for" and norm(n.ast.iter).endswith(".headers")]
-    ctx.need(loops and isinstance(loops[0].ast.target, ast.Tuple), "C15.R1: header loop of wsgi.create not found")
-    loop = loops[0]
-    HN, HV = [x.id for x in loop.ast.target.elts]
-    ctx.check("C15.R1", norm(loop.ast.iter) == "%s.headers" % f.params[0], key(f, "iterates-request-headers"), site(f, loop), "create() does not iterate req.headers in order", "for name, value in req.headers")
-    ENV = None
-    for r in g.stmts(ast.Return):
-        if isinstance(r.ast.value, ast.Tuple) and len(r.ast.value.elts) == 2 and isinstance(r.ast.value.elts[1], ast.Name):
-            ENV = r.ast.value.elts[1].id
-    ctx.need(ENV, "C15.R1: create() does not return (resp, environ)")
-    stores = [s for s in g.stmts(ast.Assign) if any(isinstance(t, ast.Subscript) and tail(t.value) == ENV for t in s.ast.targets) and any(a is loop.ast for a in f.module.ancestors(s.ast))]
-    ctx.need(stores, "C15.R1: no environ store in the header loop")
-    # evaluated: which environ key receives the value of a request header (however the mapping is written: if-chain,
-    # lookup table, helper)
-    probes = {}
-    for s in stores:
-        t = s.ast.targets[0]
-        probes[s.id] = ("store", lambda ex_, env, t=t, v=s.ast.value: (ex_.ev(t.slice, env), ex_.ev(v, env)))
-    rows = []
-    for hn in ("CONTENT-TYPE", "CONTENT-LENGTH", "HOST", "X-FOO", "EXPECT", "COOKIE", "X-CONTENT-TYPE", "CONTENT-TYPE-X"):
-        ex = Explorer(f)
-        outs = ex.run(loop, {HN: hn, HV: "v"}, stop=lambda n: n is loop, start_label="true", probes=probes)
-        got = set()
-        for o in outs:
-            if o.kind == "stop":
-                got.add(tuple(sorted((str(e[1][0]) if not isinstance(e[1], str) else "?", "value" if not isinstance(e[1], str) and e[1][1] == "v" else "joined/other")
-                                     for e in o.events if isinstance(e, tuple) and e[0] == "store")))
-        if hn in ("CONTENT-TYPE", "CONTENT-LENGTH"):
-            wkey = hn.replace("-", "_")
-        else:
-            wkey = "HTTP_" + hn.replace("-", "_")
-        okrow = bool(got) and all(len(g_) == 1 and g_[0][0] == wkey for g_ in got) and any(g_[0][1] == "value" for g_ in got)
-        rows.append({"header": hn, "stores": sorted(map(str, got)), "required": wkey})
-        ctx.check("C15.R1", okrow, key(f, "header-map|" + hn), site(f, text="header " + hn), "header %s leads to environ stores %s, required exactly one store to %s" % (hn, sorted(map(str, got)), wkey),
-                  "%s <- value" % wkey)
-    ctx.table("C15.R1 header mapping", rows)
-    # repeated fields joined with ',' in arrival order
-    joins = [s for s in g.stmts(ast.Assign) if isinstance(s.ast.targets[0], ast.Name) and s.ast.targets[0].id == HV and any(a is loop.ast for a in f.module.ancestors(s.ast))]
-    okk = False
-    for s in joins:
-        sh = fmt_shape(s.ast.value)           # "%s,%s" % (..) / "{},{}".format(..) / f"{..},{..}" / a + "," + b
-        if sh and sh[0] == "{},{}" and all(c == "s" for c in sh[2]):
-            a, b = sh[1]
-            okk = isinstance(a, ast.Subscript) and tail(a.value) == ENV and isinstance(b, ast.Name) and b.id == HV
-    ctx.check("C15.R1", okk, key(f, "repeat-join"), site(f), "repeated header fields are not joined as `earlier,later`", "'%s,%s' % (environ[key], value)")
+    f, g, loop, HN, HV, ENV = header_mapping(ctx, "C15.R1", ("CONTENT-TYPE", "CONTENT-LENGTH", "HOST", "X-FOO", "EXPECT", "COOKIE", "X-CONTENT-TYPE", "CONTENT-TYPE-X"))
     # PATH_INFO
     pi = [s for s in g.stmts(ast.Assign) if any(isinstance(t, ast.Subscript) and const(t.slice, NO) == "PATH_INFO" for t in s.ast.targets)]
     ctx.need(len(pi) == 1, "C15.R1: PATH_INFO store not found")
